@@ -630,7 +630,7 @@ func (m *Monitors) betMonitors(c *Chain, o Op, res string, prev, cur *Snap) []st
 		}
 		k := int(prev.BetParams.BatchSettlementCount)
 		want := pend
-		if k < want {
+		if uint64(prev.BetParams.BatchSettlementCount) < uint64(want) {
 			want = k
 		}
 		if newly != want {
@@ -657,6 +657,9 @@ func (m *Monitors) betMonitors(c *Chain, o Op, res string, prev, cur *Snap) []st
 			}
 		}
 		kb := int(prev.ObParams.BatchSettlementCount)
+		if prev.ObParams.BatchSettlementCount > 1<<40 {
+			kb = 1 << 40
+		}
 		wantp := unp
 		if kb < wantp {
 			wantp = kb
